@@ -84,6 +84,11 @@ def step (d : DSt) (line : String) : DSt × String :=
       ({ d with s := stepSet d.cfg d.s { key := k, ct := ct, val := v, created := c, updated := u, expire := e } }, "ok")
     | _, _, _, _, _ => (d, "bad-op")
   | ["del", k] => ({ d with s := stepDel d.s k }, "ok")
+  | ["inc", k, dl, e] =>
+    match dl.toInt?, e.toInt? with
+    | some dl, some e => ({ d with s := stepInc d.cfg d.s k dl e }, "ok")
+    | _, _ => (d, "bad-op")
+  | ["reload"] => ({ d with s := if d.s.store.isEmpty then d.s else stepReload d.s }, "ok")
   | ["q", idx, ord, fr, lim, ft, tt, _via] =>
     match slotOf idx, fr.toNat?, lim.toNat?, optT ft, optT tt with
     | some sl, some fr, some lim, some ft, some tt =>
